@@ -594,6 +594,7 @@ type FuncSpec struct {
 	Implements string
 	CallSpecs  map[string]string // callee value name -> funcspec name
 	Unroll     int
+	ChanInvs     map[string]*Clause // `chaninv T : P(v)`: every value sent on a channel of element type T satisfies P; every received one is assumed to
 	GoSequential bool // `gosequential`: go statements are executed as calls at the spawn point (A-CONC-FJ)
 }
 
@@ -651,7 +652,7 @@ var specKeywords = map[string]bool{
 	"func": true, "requires": true, "ensures": true, "modifies": true, "loop": true, "arith": true, "define": true,
 	"smt": true, "axiom": true, "lemma": true, "type": true, "interface": true, "method": true, "funcspec": true,
 	"ghost": true, "at": true, "use": true, "trusted": true, "inline": true, "invariant": true, "note": true,
-	"pure": true, "gosequential": true, "nosafety": true, "implements": true, "callspec": true, "package": true, "unroll": true,
+	"pure": true, "gosequential": true, "chaninv": true, "nosafety": true, "implements": true, "callspec": true, "package": true, "unroll": true,
 }
 
 // loadSpecFile parses one contract file. pkg is the default package key ("" for lib files, which
@@ -828,6 +829,22 @@ func (ss *SpecSet) loadSpecFile(path, pkg string) error {
 			if rest != "" {
 				curF.Notes = append(curF.Notes, "trusted: "+rest)
 			}
+		case "chaninv":
+			if curF == nil {
+				return fmt.Errorf("%s:%d: chaninv outside func", path, it.n)
+			}
+			j := strings.Index(rest, ":")
+			if j < 0 {
+				return fmt.Errorf("%s:%d: chaninv T : expr", path, it.n)
+			}
+			cl, err := mk("chaninv", strings.TrimSpace(rest[j+1:]), it.n)
+			if err != nil {
+				return err
+			}
+			if curF.ChanInvs == nil {
+				curF.ChanInvs = map[string]*Clause{}
+			}
+			curF.ChanInvs[strings.TrimSpace(rest[:j])] = cl
 		case "gosequential":
 			curF.GoSequential = true
 		case "inline":
